@@ -105,42 +105,56 @@ def reduce_model(case, drv, obs):
 ITEM_RE = re.compile(r"db=(\S+) keys=\[(.*?)\](?= db=|$)")
 
 
-def reconcile(case, drv, iobs, mobs):
+def model_variants(case, drv):
     """real processes: the joiner also opens a link to itself and asks itself for a synchronisation (set-secoundary +
-    replicate-since on the self link); whether that request is served before or after the primary's lines arrive is a race
-    of a few milliseconds between two link threads.  Served after, every key the joiner holds at that moment goes through
-    one more catch-up line (first word taken for the version, version + 1).  The model's settle policy serves it first;
-    a joiner line that differs from the model's exactly by that extra step on some keys is rewritten to the model's."""
+    replicate-since on the self link).  Whether that request is served before or after the primary's lines arrive is a race of
+    a few milliseconds between two link threads.  The model's settle policy serves it first; this variant of the case holds the
+    self link back until the primary's synchronisation is through (explicit scheduler steps, then settle)."""
+    if drv != "realcluster":
+        return []
+    cid, hdr, ops = case
+    out = []
+    for op in ops:
+        out.append(op)
+        if op[0] == "addsec":
+            a, b = op[1], op[2]
+            rnd = [["pollsup", a], ["pollrepl", a], ["pollsup", b], ["pollrepl", b], ["deliver", a, b], ["reply", b, a],
+                   ["deliver", b, a], ["reply", a, b]]
+            out += rnd * 60
+    return [(cid + "~late", hdr, out)]
+
+
+def reconcile(case, drv, iobs, mobs, alts=()):
+    """every key of the joiner must be what one of the model's schedules gives (the race is per line: the primary's lines
+    arrive one by one while the joiner's own request is being served); a joiner line that passes is rewritten to the model's
+    first schedule so that the comparison is exact everywhere else"""
     if drv != "realcluster":
         return iobs, []
     notes = []
     out = []
     mby = {l.split(" ")[1]: l for l in mobs if l.startswith("N ")}
+    aby = [{l.split(" ")[1]: l for l in a if l.startswith("N ")} for a in alts]
     for l in iobs:
         t = l.split(" ")
         if not l.startswith("N ") or t[1] == "n1" or t[1] not in mby or l == mby[t[1]]:
             out.append(l); continue
         ml = mby[t[1]]
+        cands = [ml] + [a[t[1]] for a in aby if t[1] in a]
         idbs = {m.group(1): m.group(2) for m in ITEM_RE.finditer(l)}
-        mdbs = {m.group(1): m.group(2) for m in ITEM_RE.finditer(ml)}
-        new = l
-        ok = set(idbs) == set(mdbs) and l.split(" db=")[0] == ml.split(" db=")[0]
+        cdbs = [{m.group(1): m.group(2) for m in ITEM_RE.finditer(c)} for c in cands]
+        ok = all(set(idbs) == set(c) for c in cdbs) and all(l.split(" db=")[0] == c.split(" db=")[0] for c in cands)
         if ok:
             for dbn in idbs:
                 ii = dict(x.split("=", 1) for x in idbs[dbn].split(",") if x)
-                mm = dict(x.split("=", 1) for x in mdbs[dbn].split(",") if x)
-                if set(ii) != set(mm):
+                cc = [dict(x.split("=", 1) for x in c[dbn].split(",") if x) for c in cdbs]
+                if any(set(ii) != set(c) for c in cc):
                     ok = False; break
                 for k in ii:
-                    if ii[k] == mm[k]:
-                        continue
-                    mv, mver = mm[k].rsplit("@", 1)
-                    rest = mangle(unesc(mv))[0]
-                    again = "%s@%d" % (realcluster.escv(rest.encode("utf-8")), int(mver) + 1)
-                    if ii[k] == again:
-                        notes.append("#self-sync-after-primary-sync %s %s/%s" % (t[1], dbn, k))
-                    else:
+                    which = [n for n, c in enumerate(cc) if c[k] == ii[k]]
+                    if not which:
                         ok = False; break
+                    if 0 not in which:
+                        notes.append("#self-sync-after-primary-sync %s %s/%s" % (t[1], dbn, k))
                 if not ok:
                     break
         out.append(ml if ok else l)
@@ -176,6 +190,16 @@ def real_cases(tier, rng, dist):
         for _ in range(rng.randint(0, 4)):
             ops += rand_write()
         ops += [["settle"]]
+        if rng.random() < 0.4:
+            # the joiner's process is killed, the primary goes on, the node comes back on an empty disk under the same address
+            ops += [["kill", "n2"], ["settle"]]
+            for _ in range(rng.randint(0, 3)):
+                ops += rand_write()
+            ops += [["settle"], ["revive", "n2"], ["addsec", "n1", "n2"], ["settle"]]
+            for _ in range(rng.randint(0, 2)):
+                ops += rand_write()
+            ops += [["settle"]]
+            dist["real_rejoin_after_death"] = dist.get("real_rejoin_after_death", 0) + 1
         out.append(("b%d" % i, hdr, ops))
     dist["real_processes"] = n
     return out
@@ -305,8 +329,24 @@ def away_written(case):
     return out
 
 
+def shrink_budget(case):
+    # a candidate of the real-process family costs seconds of wall clock: no delta debugging there
+    return 0 if case[0].startswith("b") else 12
+
+
 def real_oracle(case, io, mo):
     fails = []
+    lines = {l.split(" ")[1]: l for l in io["obs"] if l.startswith("N ")}
+    if "n1" in lines:
+        have = set(re.findall(r"db=(\S+) keys=", lines["n1"]))
+        for n, l in sorted(lines.items()):
+            if n == "n1":
+                continue
+            miss = sorted(d for d in have if ("db=%s MISSING" % d) in l)
+            if miss:
+                fails.append(("joiner-misses-database", "at quiescence node %s has no database %s although it joined the primary (%s)" % (n, ",".join(miss), l[:120])))
+            if " role=P" in l:
+                fails.append(("two-primaries-after-join", "node %s is a primary next to n1: %s" % (n, l[:80])))
     for l in io["obs"]:
         if not l.startswith("N "):
             fails.append(("real-run-failed", l[:200]))
